@@ -307,14 +307,29 @@ def rule_dup(F, R):
                         propagated = True
         R.check(propagated, rule, fn, "duplicate-name error of add_field_full is propagated with `?`",
                 "a dropped Result silently keeps the first definition", c["sp"])
-        ret_ = fn_result(h)
-        returned = local_name(ret_["args"][0]) if ret_.get("k") == "Call" and ret_.get("args") else None
-        R.check((returned is not None and local_name(c["recv"]) == returned) if c["k"] == "MethodCall" else True, rule, fn,
+        returned = _returned_builder(E, h)
+        recv_b = sem.root_local(returned[0], c["recv"], returned[0].root) if returned and c["k"] == "MethodCall" else None
+        R.check((returned is not None and recv_b is not None and recv_b is returned[1]) if c["k"] == "MethodCall" else True, rule, fn,
                 "fields are added to the builder that is returned", where=c["sp"])
-    t = fn_result(h)
-    ok = t.get("k") == "Call" and norm(t.get("callee", "")) == "core::result::Result::Ok" and local_name(t["args"][0]) is not None and \
-        "SchemeBuilder" in norm(t["args"][0].get("ty", ""))
-    R.check(ok, rule, fn, "the visitor returns that builder", where=h["span"])
+    R.check(_returned_builder(E, h) is not None, rule, fn, "the visitor returns that builder", where=h["span"])
+
+
+def _returned_builder(E, h):
+    """(Sem, binding) of the SchemeBuilder local that every successful result of the visitor is made of: `Ok(builder)` or
+    `Ok(builder.build())`"""
+    S = sem.Sem(E, h)
+    oks = [x for x in S.result_leaves() if sem.ctor_head(x.node) == "Result::Ok" and x.node.get("args")]
+    binds = []
+    for x in oks:
+        b = sem.root_local(S, x.node["args"][0], x.frame)
+        v = sem.peel(x.node["args"][0])
+        only_build = all(m["m"] == "build" for m in chain(v, follow=False)[1])
+        if b is None or b.pat is None or "SchemeBuilder" not in norm(b.pat.get("ty", "")) or not only_build:
+            return None
+        binds.append(b)
+    if not binds or any(b is not binds[0] for b in binds):
+        return None
+    return S, binds[0]
 
 
 def run(F, R, tier):
